@@ -2,7 +2,9 @@
 //! Mapper): the mapped block carries the block's hash, slot, height and as many transactions; every mapped transaction carries the
 //! transaction's hash, its inputs as the sorted set of (tx id, index), its outputs in order with the address bytes, the coin, and every asset's
 //! policy, name and quantity, the fee, the validity interval and phase-2 flag, the mint, the collateral and reference inputs, and for
-//! every output datum its hash (and the on-chain bytes of an inline datum). Integers are read back exactly from the schema's BigInt.
+//! every output datum its hash (and the on-chain bytes of an inline datum). Integers are read back exactly from the schema's BigInt. Plus 19
+//! generated Babbage outputs per version whose inline datum is given as raw CBOR — integers across the CBOR range (also non-minimal heads and
+//! bignums), byte strings written definite and indefinite, lists / maps / constructors in both forms: the datum hash is the hash of those bytes.
 //! Exit 1 with the first failing fixture / transaction / field if not.
 use pallas_traverse::{MultiEraBlock, MultiEraOutput, MultiEraTx, OriginalHash};
 use pallas_primitives::conway::DatumOption;
@@ -93,6 +95,45 @@ macro_rules! version {
 }
 version!(check_v1beta, v1beta, "v1beta", |a: &u5c::Asset| a.quantity.clone(), |d: &u5c::Datum| d.original_cbor.as_ref().map(|b| b.to_vec()));
 version!(check_v1alpha, v1alpha, "v1alpha", |a: &u5c::Asset| match &a.quantity { Some(u5c::asset::Quantity::OutputCoin(b)) | Some(u5c::asset::Quantity::MintCoin(b)) => Some(b.clone()), None => None }, |d: &u5c::Datum| Some(d.original_cbor.to_vec()));
+/// generated outputs: a Babbage post-Alonzo output whose inline datum is given as raw CBOR (canonical or not), mapped on its own
+macro_rules! datum_version {
+    ($fname:ident, $vm:ident, $label:expr, $dcbor:expr, $int_of:expr) => {
+        fn $fname(n: &mut u64) {
+            use pallas_utxorpc::$vm::{spec::cardano as u5c, Mapper};
+            let mapper = Mapper::new(NoLedger);
+            // (datum CBOR, the integer it denotes if it is one)
+            let datums: Vec<(Vec<u8>, Option<i128>)> = vec![
+                (vec![0x00], Some(0)), (vec![0x17], Some(23)), (vec![0x18, 0x18], Some(24)), (vec![0x1b, 0, 0, 0, 0, 0, 0, 0, 1], Some(1)),          // 1 on eight bytes: not canonical
+                (vec![0x1b, 0x80, 0, 0, 0, 0, 0, 0, 0], Some(1i128 << 63)), (vec![0x1b, 0xff, 0xff, 0xff, 0xff, 0xff, 0xff, 0xff, 0xff], Some((1i128 << 64) - 1)),
+                (vec![0x20], Some(-1)), (vec![0x3b, 0x7f, 0xff, 0xff, 0xff, 0xff, 0xff, 0xff, 0xff], Some(-(1i128 << 63))), (vec![0x3b, 0xff, 0xff, 0xff, 0xff, 0xff, 0xff, 0xff, 0xff], Some(-(1i128 << 64))),
+                (vec![0xc2, 0x49, 0x01, 0, 0, 0, 0, 0, 0, 0, 0], Some(1i128 << 64)), (vec![0xc3, 0x49, 0x01, 0, 0, 0, 0, 0, 0, 0, 0], Some(-1 - (1i128 << 64))),
+                (vec![0x5f, 0x43, 1, 2, 3, 0xff], None),                      // bytes written as an indefinite string: not canonical
+                (vec![0x43, 1, 2, 3], None), (vec![0x9f, 0x01, 0x02, 0xff], None), (vec![0x82, 0x01, 0x02], None), (vec![0xd8, 0x79, 0x9f, 0x18, 0x2a, 0xff], None), (vec![0xd8, 0x79, 0x81, 0x18, 0x2a], None),
+                (vec![0xa1, 0x01, 0x02], None), (vec![0xbf, 0x01, 0x02, 0xff], None),
+            ];
+            for (dc, int) in &datums {
+                let addr = [0x61u8].iter().copied().chain(std::iter::repeat(0x5a).take(28)).collect::<Vec<u8>>();
+                let mut out = vec![0xa3, 0x00, 0x58, addr.len() as u8]; out.extend_from_slice(&addr);
+                out.extend_from_slice(&[0x01, 0x1a, 0x00, 0x1e, 0x84, 0x80]);                  // 2 000 000 lovelace
+                out.extend_from_slice(&[0x02, 0x82, 0x01, 0xd8, 0x18, 0x58, dc.len() as u8]); out.extend_from_slice(dc);
+                let o = MultiEraOutput::decode(pallas_traverse::Era::Babbage, &out).unwrap_or_else(|e| fail(format!("{} generated output with datum {} does not decode: {e}", $label, hex::encode(dc))));
+                let mo: u5c::TxOutput = mapper.map_tx_output(&o, None);
+                let d = mo.datum.as_ref().unwrap_or_else(|| fail(format!("{} output with inline datum {}: no datum mapped", $label, hex::encode(dc))));
+                let want = pallas_crypto::hash::Hasher::<256>::hash(dc);
+                if d.hash.as_ref() != want.as_ref() { fail(format!("{} output with inline datum {}: mapped datum hash {} is not the hash of the on-chain bytes {}", $label, hex::encode(dc), hex::encode(&d.hash), want)); }
+                if ($dcbor)(d) != Some(dc.clone()) { fail(format!("{} output with inline datum {}: original bytes not carried", $label, hex::encode(dc))); }
+                if let Some(v) = int { let got: Option<i128> = ($int_of)(d); if got != Some(*v) { fail(format!("{} output with inline datum {}: the integer {v} is mapped as {got:?}", $label, hex::encode(dc))); } }
+                if mo.address.as_ref() != addr.as_slice() { fail(format!("{} generated output: address bytes differ", $label)); }
+                *n += 1;
+            }
+        }
+    };
+}
+datum_version!(datums_v1beta, v1beta, "v1beta", |d: &u5c::Datum| d.original_cbor.as_ref().map(|b| b.to_vec()),
+    |d: &u5c::Datum| match d.payload.as_ref().and_then(|p| p.plutus_data.as_ref()) { Some(u5c::plutus_data::PlutusData::BigInt(b)) => match b.big_int.as_ref() { Some(u5c::big_int::BigInt::Int(i)) => Some(*i as i128), Some(u5c::big_int::BigInt::BigUInt(x)) => Some(be(x)), Some(u5c::big_int::BigInt::BigNInt(x)) => Some(-1 - be(x)), None => None }, _ => None });
+datum_version!(datums_v1alpha, v1alpha, "v1alpha", |d: &u5c::Datum| Some(d.original_cbor.to_vec()),
+    |d: &u5c::Datum| match d.payload.as_ref().and_then(|p| p.plutus_data.as_ref()) { Some(u5c::plutus_data::PlutusData::BigInt(b)) => match b.big_int.as_ref() { Some(u5c::big_int::BigInt::Int(i)) => Some(*i as i128), Some(u5c::big_int::BigInt::BigUInt(x)) => Some(be(x)), Some(u5c::big_int::BigInt::BigNInt(x)) => Some(-1 - be(x)), None => None }, _ => None });
+
 fn show(v: &[(Vec<u8>, Vec<u8>, i128)]) -> String { v.iter().map(|(p, n, q)| format!("{}.{} {q}", hex::encode(&p[..p.len().min(4)]), hex::encode(n))).collect::<Vec<_>>().join(", ") }
 #[allow(dead_code)] fn unused(_: &MultiEraTx) {}
 
@@ -108,6 +149,7 @@ fn main() {
         check_v1alpha(&name, &block, &mut n);
         blocks += 1;
     }
+    datums_v1beta(&mut n); datums_v1alpha(&mut n);
     if blocks < 10 { fail(format!("only {blocks} block fixtures decoded: the harness is not exercising the mappers")); }
-    println!("checked {n} mapped transactions in {blocks} blocks, both schema versions");
+    println!("checked {n} mapped transactions in {blocks} blocks, both schema versions, and generated outputs with canonical and non-canonical inline datums");
 }
